@@ -77,11 +77,17 @@ package dtls
 //@   ensures @C16: result1 == nil ==> id in l.connMap && result0 == l.connMap[id]
 //@   assigns held(&l.connMapMutex), acq(&l.connMapMutex)
 
-// derivations from the secret (deterministic key, certificate and hello-random from HKDF(secret); not analysed here)
+// derivations from the secret (deterministic key, certificate and hello-random from HKDF(secret); the frames are
+// assumed, the key schedule is checked): C16 "both ends derive identical certificates from a shared secret and a
+// handshake completes only when both used the same secret" - the secret is the HKDF input keying material (an
+// injective use: as salt it would be an HMAC key, which is zero-padded / hashed, so different secrets would collide),
+// the purpose label is the salt, and the two derivations use different labels.
 //@ func certsFromSeed(seed []byte) (*tls.Certificate, *tls.Certificate, error)
+//@   atcall hkdf.New before: assert @C16: arg1 == seed && string(arg2) == "certsFromSeed" && len(arg3) == 0
 //@   assigns nothing
 //@   trusted
 //@ func clientHelloRandomFromSeed(seed []byte) ([28]byte, error)
+//@   atcall hkdf.New before: assert @C16: arg1 == seed && string(arg2) == "clientHelloRandomFromSeed" && len(arg3) == 0
 //@   assigns nothing
 //@   trusted
 
